@@ -103,7 +103,7 @@ def c16_serve(case, server_exe, cachegen_exe, timeout=30.0):
         stub = H.start_stub(d["acc"], d["egr"])
         srv = H.start_server(cdir, threads=1, cache_all=bool(d.get("cacheall")), osrm_port=stub.port, exe=server_exe, tag=did)
         if srv is None or not srv.alive() or getattr(srv, "ready_s", None) is None:
-            out["startup"] = "server did not come up: " + (srv.output()[-600:] if srv else "no handle")
+            out["startup"] = "server did not come up: " + ((srv.sanitizer_output() or srv.output()[-600:]) if srv else "no handle")
             return out
         for kind, q in reqs:
             url = H.route_query(q, kind)
@@ -304,7 +304,7 @@ INT_MAX = 2147483647
 UPDATE_NAME_KEYS = ("names", "caches", "cache_names", "name", "cache", "cache_name")
 UPDATE_PATH_KEYS = ("path", "custom_path", "custom_cache_path")
 UPDATE_KNOWN = {"data_sources", "persons", "od_trips", "agencies", "services", "nodes", "lines", "paths", "scenarios", "schedules", "all"}
-C18_N = {"quick": 2400, "thorough": 40000}        # random query strings (the systematic catalogue comes on top)
+C18_N = {"quick": 6000, "thorough": 60000}        # random query strings (the systematic catalogue comes on top)
 C18_RULE = ("raw-socket GETs to the real ASan server binary: a systematic catalogue (every documented parameter absent / duplicated / "
             "malformed / extreme, every endpoint) + seeded random query strings with percent-encoding, upper-case keys and duplicates, on a "
             "ready server (Euclidean geofilter), on two not-ready servers (empty cache directory, cache without schedules) and /updateCache "
@@ -370,6 +370,7 @@ def stoi_model(v):
     completely although they are not plain integers (leading white space, '+'); prefix = trailing garbage ignored"""
     m = re.match(r"[ \t\n\v\f\r]*([+-]?\d+)", v)
     if not m: return "nonnumeric", None
+    if len(m.group(1).lstrip("+-").lstrip("0")) > 12: return "range", None
     n = int(m.group(1))
     if not -2 ** 31 <= n < 2 ** 31: return "range", None
     if m.end() < len(v): return "prefix", n
@@ -456,10 +457,12 @@ def analyse(endpoint, pairs, known, empty):
         must.append(("missing-scenario", {"MISSING_PARAM_SCENARIO"}))
     else:
         cls = [scen_model(v, known, empty) for v in ss]
-        for c in cls:
-            if c == "malformed": must.append(("malformed-scenario", {"MISSING_PARAM_SCENARIO"}))
-            if c != "ok": info["features"].add(c + "-scenario")
         usable = [c for c in cls if c in ("ok", "empty", "lenient")]
+        for c in cls:
+            # a malformed id is an id no scenario has: with a duplicated key it demands a 400 only when no
+            # other occurrence names a usable scenario (the server reads the pairs in hash order, DESIGN C18)
+            if c == "malformed": (must if not usable else may).append(("malformed-scenario", {"MISSING_PARAM_SCENARIO"}))
+            if c != "ok": info["features"].add(c + "-scenario")
         if not usable and "malformed" not in cls:
             must.append(("unknown-scenario", {"MISSING_PARAM_SCENARIO"}))
         if "lenient" in cls: may.append(("lenient-scenario", {"MISSING_PARAM_SCENARIO"}))
@@ -473,8 +476,11 @@ def analyse(endpoint, pairs, known, empty):
     return must, may, info
 
 
-PARAM_UNKNOWN_SIGNATURE = [("missing-place", "missing-place-code"), ("invalid-place", "invalid-place-code"),
-                           ("malformed-scenario", "malformed-scenario-id-code")]
+# PARAM_ERROR_UNKNOWN is attributed to the defect the parser meets first (place before the common parameters); forms the
+# current parser accepts (lenient / prefix) are considered last
+PARAM_UNKNOWN_SIGNATURE = [("invalid-place", "invalid-place-code"), ("missing-place", "missing-place-code"),
+                           ("malformed-scenario", "malformed-scenario-id-code"), ("lenient-place", "invalid-place-code"),
+                           ("prefix-place", "invalid-place-code")]
 
 
 def classify_route_response(endpoint, url, st, hd, body, ready, known, empty, codes):
@@ -507,8 +513,8 @@ def classify_route_response(endpoint, url, st, hd, body, ready, known, empty, co
             fails.append(("spurious-400", "HTTP 400 %s for a request without any defect" % code))
         elif code == "PARAM_ERROR_UNKNOWN":
             classes = [c for c, _ in must + may]
-            sig = next((s for c, s in PARAM_UNKNOWN_SIGNATURE if c in classes), "param-error-unknown")
             named = sorted(set(x for _, cs in must + may for x in cs))
+            sig = next((s for c, s in PARAM_UNKNOWN_SIGNATURE if c in classes), "param-error-unknown")
             fails.append((sig, "answered PARAM_ERROR_UNKNOWN although the request's defect (%s) has a documented specific code (%s)" % (", ".join(sorted(set(classes))), "/".join(named))))
         elif not any(code in cs for _, cs in must + may):
             fails.append(("wrong-error-code", "errorCode %s names a defect the request does not have (its defects: %s)" % (code, ", ".join(sorted(set(c for c, _ in must + may))))))
@@ -572,15 +578,19 @@ def classify_update_response(url, st, hd, body):
         quoted = any('"' in n or "\\" in n or any(ord(ch) < 32 for ch in n) for n in names + [path])
         return fails + [("updatecache-unescaped-json" if quoted else "body-not-json",
                          "body of /updateCache is not JSON%s: %r" % (" (a name / path containing a double quote, backslash or control character is pasted unescaped)" if quoted else "", body[:160]))], None
+    quoted = any('"' in n or "\\" in n or any(ord(ch) < 32 for ch in n) for n in names + [path])
     if known:
         if j.get("status") != "success":
             fails.append(("updatecache-wrong-object", "known cache name(s) %s given but the answer is %r" % (known, j)))
         else:
             listed = [x for x in str(j.get("cache_names", "")).split(",")]
-            if sorted(set(listed)) != sorted(set(known)):
+            if sorted(set(listed)) != sorted(set(known)) and quoted and sorted(set(listed)) != sorted(set(names)):
+                fails.append(("updatecache-unescaped-json", "cache_names reads back as %r, request said %r (pasted unescaped into the JSON text)" % (listed, names)))
+            elif sorted(set(listed)) != sorted(set(known)):
                 fails.append(("updatecache-names-unknown-cache", "success object names %s, the caches actually refreshed are %s (an unknown name after a known one is reported as refreshed)" % (listed, known)))
             if j.get("custom_cache_path") != path:
-                fails.append(("updatecache-wrong-object", "custom_cache_path %r, request said %r" % (j.get("custom_cache_path"), path)))
+                fails.append(("updatecache-unescaped-json" if quoted else "updatecache-wrong-object", "custom_cache_path reads back as %r, request said %r%s" % (
+                    j.get("custom_cache_path"), path, " (pasted unescaped into the JSON text)" if quoted else "")))
     elif j.get("status") != "error":
         fails.append(("updatecache-wrong-object", "no known cache name given but the answer is %r" % (j,)))
     return fails, j
@@ -793,6 +803,8 @@ class Group:
         return None, "", False
 
     def send(self, url, timeout=6.0):
+        if not re.fullmatch(r"[\x21-\x7e]+", url):
+            raise ValueError("generator bug: URL contains a character a request line cannot carry: %r" % url[:200])
         if self.srv is None:
             self.start()
         st, hd, body, raw = self.srv.get(url, timeout=timeout)
@@ -820,12 +832,15 @@ class Group:
         self.records.append(rec)
         return rec
 
-    def run(self, urls, max_restarts=40):
+    def run(self, urls, max_restarts=1000):
+        self.error = None
         try:
             for u in urls:
                 if self.restarts > max_restarts:
                     self.records.append(dict(url=u, skipped=True)); continue
                 self.send(u)
+        except Exception as e:            # e.g. the server does not start at all on this cache directory
+            self.error = "%s: %s" % (type(e).__name__, e)
         finally:
             rc, san, died = self.stop()
             self.final_san = san if (san and rc not in (None,)) else ""
@@ -913,7 +928,7 @@ def run_c18(tier, seed, replay=None, theorems=None, module=None):
         gupd = mk("update", gens[0])
         urng = random.Random(seed * 1000003 + 7)
         upd_urls = list(UPDATE_CATALOGUE)
-        pool = sorted(UPDATE_KNOWN) + ["foo", "", "Agencies", "all ", "x" * 50, "%22", "a%22b", "schedules%00"]
+        pool = sorted(UPDATE_KNOWN) + ["foo", "", "Agencies", "all%20", "x" * 50, "%22", "a%22b", "schedules%00", "a%5Cb"]
         for _ in range(30 if tier != "thorough" else 300):
             ns_ = [urng.choice(pool) for _ in range(urng.randint(0, 4))]
             u = "/updateCache?%s=%s" % (urng.choice(UPDATE_NAME_KEYS), ",".join(ns_))
@@ -964,11 +979,13 @@ def run_c18(tier, seed, replay=None, theorems=None, module=None):
                     stats["%s %s %s" % (ep, rec["st"], (j.get("errorCode") or j.get("status")) if j else "unparsable")] += 1
                 for sig, desc in fails:
                     fail(sig, "%s  [GET %s on %s data]" % (desc, _short(url), "ready" if g.ready else "not-ready (" + g.name + ")"), g, [url],
-                         key=(ep, desc[:60]))
+                         key=(ep, desc[:75]))
                 if not fails and (feats or rec["st"] == 400):
                     rep.nontrivial.add(hash(url))
                 if len(rep.samples) < 4 and rec["st"] == 400 and not fails:
                     rep.samples.append(dict(request=_short(url), server=g.name, status=rec["st"], body=rec["body"].decode("utf-8", "replace")[:200]))
+            if getattr(g, "error", None):
+                fail("server-startup", "request group %s stopped: %s" % (g.name, g.error[:500]), g, [], key=g.name)
             if g.final_san:
                 fail("sanitizer", "sanitizer / abort output of server %s not attributed to a request: %s" % (g.name, g.final_san[:500]), g, [r["url"] for r in g.records[-3:] if "url" in r], key=g.name)
             stats["server restarts"] += g.restarts
@@ -1076,11 +1093,13 @@ def _c18_pairs(g, stats):
                 off += (target - got) * (5 / 3.6) / 111131.745 * (1.0 if abs(target - got) > 1 else 0.45)
             return None
         for side, key in (("origin", "max_access_travel_time"), ("destination", "max_egress_travel_time")):
-            p1200, p1201, p3000 = far_point(side, 1200), far_point(side, 1201), far_point(side, 3000)
+            # the Euclidean filter compares the exact distance with max * speed but reports whole seconds of the truncated
+            # distance, so the two thresholds differ by up to a second: stay 5 s away from the default on either side
+            p1200, p1201, p3000 = far_point(side, 1195), far_point(side, 1205), far_point(side, 3000)
             if not (p1200 and p1201 and p3000):
                 stats["pairs: no far %s point found" % side] += 1; continue
             qb = dict(base, time_of_trip=20000, max_first_waiting_time=0)
-            for p, label, ctl in ((p1200, "walk of exactly 1200 s", 1199), (p1201, "walk of 1201 s", 1201)):
+            for p, label, ctl in ((p1200, "walk of 1195 s", 1190), (p1201, "walk of 1205 s", 1210)):
                 q = dict(qb); q[side] = p
                 om = get(q); expect_equal("default-" + key, "omitted %s vs 1200 (%s)" % (key, label), om, get(dict(q, **{key: 1200})))
                 discriminates("%s %d" % (key, ctl), om, get(dict(q, **{key: ctl})))
